@@ -11,19 +11,19 @@ def L(what, bound):
             " A green run means no counter-example among the cases counted in the evidence file (exhaustive only where the evidence says so); it is not a proof.")
 CLAIMED = {
  "C01": (PBT + "; stateful / model-based: generated operation histories interpreted against a BTreeSet model after every step",
-         L("operation histories (add_arc, add_arc_weighted, remove_arc, toggle with valid and invalid arguments) on six representations from five kinds of start digraph are applied to the implementation and to a plain set-of-arcs model; after every step order, vertices, arcs, weights, size, has_arc and arc_weight over all pairs are compared, rejected calls must panic and change nothing, and the final digraph must == one built afresh.", "order <= 24/70, <= 40/120 steps."),
+         L("operation histories (add_arc, add_arc_weighted, remove_arc, toggle with valid and invalid arguments) on six representations from five kinds of start digraph are applied to the implementation and to a plain set-of-arcs model; after every step order, vertices, arcs, weights, size, has_arc and arc_weight over all pairs are compared, rejected calls must panic and change nothing, and the final digraph must == one built afresh.", "order <= 24/70 (1 case in 25 at 17..140; huge leg 200..3100 with <= 30 steps), <= 40/120 steps; thorough adds a libFuzzer campaign (target history, 12 x 400k runs)."),
          "Trusts the BTreeMap model and the per-representation admission rule written from the property text; panic messages are not compared.",
          "DESIGN.md section 4, C01"),
  "C02": (PBT + " + " + ENUM + "; oracle: direct definitions over the abstract arc set",
-         L("every query of the property (order ... max/min degrees, has_walk on genuine, corrupted and out-of-V vertex sequences, total queries on ids outside V) is compared with its definition on five representations and on non-contiguous AdjacencyMap digraphs, under a generated CPU count; the digraph must be unchanged afterwards.", "order <= 40/130; all digraphs of order <= 3/4 exhaustively."),
+         L("every query of the property (order ... max/min degrees, has_walk on genuine, corrupted and out-of-V vertex sequences, total queries on ids outside V) is compared with its definition on five representations and on non-contiguous AdjacencyMap digraphs, under a generated CPU count; the digraph must be unchanged afterwards.", "order <= 40/130 (1 in 25 at 17..140); huge leg 200..3100 vertices with sampled per-vertex queries; all digraphs of order <= 3/4 exhaustively."),
          "Trusts the definitions in harness/src/model.rs; queries documented to panic outside V are only called inside V.",
          "DESIGN.md section 4, C02"),
  "C03": (PBT + " + " + ENUM + "; oracle: dynamic-programming shortest-walk reference",
-         L("DijkstraDist::distances() and the Dijkstra / DijkstraDist item sequences are compared with an independent walk-length dynamic programme (exact distances, usize::MAX exactly at unreachable vertices, each reachable vertex once, none unreachable, non-decreasing distance).", "order <= 12/40, weights up to 2^40; every digraph of order <= 3 (quick) / <= 4 (thorough) with weights 0,1,2 exhaustively."),
+         L("DijkstraDist::distances() and the Dijkstra / DijkstraDist item sequences are compared with an independent walk-length dynamic programme (exact distances, usize::MAX exactly at unreachable vertices, each reachable vertex once, none unreachable, non-decreasing distance).", "order <= 12/40 (1 in 60 at 17..140), weights up to 2^40; every digraph of order <= 3 (quick) / <= 4 (thorough) with weights 0,1,2 exhaustively."),
          "Trusts the reference dynamic programme (cross-checked against simple-path enumeration) and that walk sums stay below usize::MAX as the property requires.",
          "DESIGN.md section 4, C03"),
  "C04": (PBT + " + " + ENUM + "; oracle: level-set hop distances",
-         L("Bfs / BfsDist sequences and BfsDist::distances() on five representations are compared with level sets computed from the definition.", "order <= 16/60; all digraphs of order <= 3/4 x 13 source lists exhaustively."),
+         L("Bfs / BfsDist sequences and BfsDist::distances() on five representations are compared with level sets computed from the definition.", "order <= 16/60 (1 in 25 at 17..140, so that bit-matrix rows span two and three words); all digraphs of order <= 3/4 x 13 source lists exhaustively."),
          "Order within a level is free; sources are distinct and in range.",
          "DESIGN.md section 4, C04"),
  "C05": (PBT + " + " + ENUM + "; oracle: validity predicates over trees and paths with reference distances",
@@ -35,11 +35,11 @@ CLAIMED = {
          "Trusts the validity predicate (accepts every depth-first preorder) and known_findings.json.",
          "DESIGN.md section 4, C06"),
  "C07": (PBT + " + " + ENUM + "; oracle: dynamic-programming shortest-walk reference incl. negative-circuit detection; differential vs Dijkstra",
-         L("BellmanFordMoore::distances() must be None when the reference finds a negative circuit reachable from the source, Some when the digraph has none, and exact whenever Some; arc counts of every residue mod 4, reverse paths needing |V|-1 sweeps, planted negative / zero circuits.", "order <= 14/48, |w| < 100; all digraphs of order <= 3 with weights -1,0,2 x sources exhaustively."),
+         L("BellmanFordMoore::distances() must be None when the reference finds a negative circuit reachable from the source, Some when the digraph has none, and exact whenever Some; arc counts of every residue mod 4, reverse paths needing |V|-1 sweeps, planted negative / zero circuits.", "order <= 14/48 (1 in 80 at 17..140), |w| < 100; all digraphs of order <= 3 with weights -1,0,2 x sources exhaustively."),
          "When a negative circuit exists but is unreachable from the source both None and a correct Some are accepted (the property leaves it open).",
          "DESIGN.md section 4, C07"),
  "C08": (PBT + " + " + ENUM + "; oracle: per-source dynamic programme; differential vs Bellman-Ford-Moore and Dijkstra",
-         L("every cell of FloydWarshall::distances() is compared with the reference run from every vertex on digraphs constructed without negative circuits (negative arcs via potentials, zero circuits, unreachable pairs).", "order <= 12/40; all digraphs of order <= 3 with weights -1,0,2 without negative circuit exhaustively."),
+         L("every cell of FloydWarshall::distances() is compared with the reference run from every vertex on digraphs constructed without negative circuits (negative arcs via potentials, zero circuits, unreachable pairs).", "order <= 12/40 (1 in 150 at 17..140: blocked / tiled variants); all digraphs of order <= 3 with weights -1,0,2 without negative circuit exhaustively."),
          "Digraphs with a negative circuit are outside the property and never generated.",
          "DESIGN.md section 4, C08"),
  "C09": (PBT + " + " + ENUM + "; oracle: transitive-closure SCCs",
@@ -51,7 +51,7 @@ CLAIMED = {
          "Order is capped at 7 because the reference is exponential; list order is free.",
          "DESIGN.md section 4, C10"),
  "C11": (PBT + " + " + ENUM + "; oracle: set definitions + metamorphic relations (involution, commutativity, associativity, idempotence); CPU count set per case",
-         L("complement, converse, union and filter_vertices on every representation that implements them, including pairs of non-contiguous AdjacencyMap digraphs, are compared with their set definitions under a generated CPU count with row counts chosen relative to it; operands must be unchanged, results valid.", "order <= 40/100; all pairs of digraphs of order <= 3 exhaustively."),
+         L("complement, converse, union and filter_vertices on every representation that implements them, including pairs of non-contiguous AdjacencyMap digraphs, are compared with their set definitions under a generated CPU count with row counts chosen relative to it; operands must be unchanged, results valid.", "order <= 40/100 (1 in 25 at 17..140; huge leg 200..900); all pairs of digraphs of order <= 3 exhaustively."),
          "Union of fixed-order representations is judged with V = 0..max(order); filter selections always keep a vertex.",
          "DESIGN.md section 4, C11"),
  "C12": (PBT + " + " + ENUM + "; oracle: definitions over the abstract arc set; near-miss generators",
@@ -59,7 +59,7 @@ CLAIMED = {
          "Order-0 digraphs are not exercised.",
          "DESIGN.md section 4, C12"),
  "C13": ("generated API programs (systematic sweep of every entry point x argument class + proptest random programs) executed in child processes built with AddressSanitizer and std's unsafe-precondition checks; crash isolation by journalled re-run; counting-allocator leak meter (growth must scale with 8/16/32 repetitions)",
-         L("every public entry point is called with vertex arguments in range, = order, = order+1, 1000 and usize::MAX on 21 base digraphs (all six representations, three non-contiguous AdjacencyMap vertex sets), alone (sweep) and in random programs of 1..6 calls; each call must return or unwind, the digraph must stay structurally valid and usable after a panic, and no call may grow the live heap in proportion to its repetitions.", "base order <= 8, <= 6 calls; sweep is exhaustive over its stated entry-point x argument-class table."),
+         L("every public entry point is called with vertex arguments in range, = order, = order+1, 1000 and usize::MAX on 21 base digraphs (all six representations, three non-contiguous AdjacencyMap vertex sets), alone (sweep) and in random programs of 1..6 calls; each call must return or unwind, the digraph must stay structurally valid and usable after a panic, and no call may grow the live heap in proportion to its repetitions.", "base order <= 8 (plus stars of 256..258 vertices and a CPU-count segment at 1, 2, 3 CPUs), <= 6 calls; the sweep is exhaustive over its stated entry-point x argument-class table; thorough adds a libFuzzer campaign (target api_program, 12 x 400k runs) and a Miri leg (4500 sweep programs under -Zmiri-num-cpus 1..4)."),
          "Trusts AddressSanitizer + the unsafe-precondition checks to turn out-of-bounds accesses into aborts (in-allocation overreads that neither detects can be missed; the Miri replay leg narrows that gap for the committed corpus). Any unwinding panic counts as the documented panic. Allocation-heavy arguments are excluded; OOM is exit 2.",
          "DESIGN.md section 4, C13"),
  "C14": (ENUM + " of the parameter box + " + PBT + " for larger orders; oracle: closed-form arc sets",
@@ -71,23 +71,23 @@ CLAIMED = {
          "The concrete digraph per seed and equality across representations / thread counts are deliberately not asserted.",
          "DESIGN.md section 4, C15"),
  "C16": (PBT + "; oracle: round trips and the abstract model",
-         L("all 12 conversions among the unweighted representations (round trips ==), the 8 conversions into AdjacencyListWeighted (weights 1), chains of 2..4 conversions, From<rows> and From<arcs> with valid inputs (duplicates, arbitrary order) and invalid ones (self-loop, out-of-range head, empty).", "order <= 24/70."),
+         L("all 12 conversions among the unweighted representations (round trips ==), the 8 conversions into AdjacencyListWeighted (weights 1), chains of 2..4 conversions, From<rows> and From<arcs> with valid inputs (duplicates, arbitrary order) and invalid ones (self-loop, out-of-range head, empty).", "order <= 40/70 (1 in 25 at 17..140; huge leg 200..3100)."),
          "An empty arc iterator for EdgeList::from is only required to give a digraph with at least one vertex.",
          "DESIGN.md section 4, C16"),
  "C17": (PBT + " + enumeration over (n, k); oracle: single-threaded definition, identical for every CPU count and repetition; CPU count set with sched_setaffinity before each call",
-         L("the eight threaded operations are executed under every CPU count 1..16, with row counts below / equal / just above / far above the count and not a multiple of the chunk size, several times each, and compared with the definition (seeded AdjacencyMap generators: validity and repeatability within one configuration).", "rows <= 60/130, 3/10 repetitions; complete(n) and complement(path(n)) for every n <= 64 x k <= 16 exhaustively."),
-         "Natively only the CPU count and repetition vary the interleaving; a race needing a specific preemption on a large input can be missed.",
+         L("the eight threaded operations are executed under every CPU count 1..16, with row counts below / equal / just above / far above the count and not a multiple of the chunk size, several times each, and compared with the definition (seeded AdjacencyMap generators: validity and repeatability within one configuration).", "rows <= 60/130 (huge leg: 200..3100 rows), 3/10 repetitions; complete(n) and complement(path(n)) for every n <= 64 x k <= 16 exhaustively; thorough adds a Miri leg in which every case runs under 16 scheduler seeds and 1..4 CPUs with data-race detection."),
+         "Natively only the CPU count and repetition vary the interleaving; the Miri leg owns the schedule but only for orders <= 33; a race needing a specific preemption on a large input can be missed.",
          "DESIGN.md section 4, C17"),
  "C18": (PBT + " + " + ENUM + "; oracle: definitions of the metrics over the written cells",
          L("matrices written through IndexMut into DistanceMatrix::new for isize and usize (ties, all-infinite rows, small and MAX infinity) and matrices returned by FloydWarshall: eccentricities, diameter, center, periphery, is_connected, (u, v) addressing, new().", "order <= 8; all 3x3 matrices over a 3-symbol alphabet exhaustively."),
          "Entries never exceed the matrix's infinity value, as the property requires.",
          "DESIGN.md section 4, C18"),
  "C19": (PBT + " + " + ENUM + "; oracle: reference chain walk with a visited set; termination decided by a call-counting predicate, not a clock",
-         L("search_by / search on trees, rho-shapes, pure cycles and self-referential vectors with three predicate families; the predicate panics after 2*len+4 calls, which turns non-termination into a deterministic failure.", "length <= 12; every vector of length <= 4 (quick) / <= 5 (thorough) x start x target exhaustively."),
+         L("search_by / search on trees, rho-shapes, pure cycles and self-referential vectors with three predicate families; the predicate panics after 2*len+4 calls, which turns non-termination into a deterministic failure.", "length <= 12 (1 in 5 up to 140 / 257); every vector of length <= 4 (quick) / <= 5 (thorough) x start x target exhaustively."),
          "Entries are in range (out-of-range entries belong to C13); predicates are pure.",
          "DESIGN.md section 4, C19"),
  "C20": (PBT + "; oracle: abstract digraph equality over pairs of construction histories",
-         L("the same / a near-identical abstract digraph is built along two of six history styles in six representations; ==, !=, cmp, partial_cmp and DefaultHasher output must follow the abstract digraph; a clone must be equal and independent under a generated mutation; is_complete of matrix / edge list on digraphs that became complete through histories.", "order <= 20/64."),
+         L("the same / a near-identical abstract digraph is built along two of six history styles in six representations; ==, !=, cmp, partial_cmp and DefaultHasher output must follow the abstract digraph; a clone must be equal and independent under a generated mutation; is_complete of matrix / edge list on digraphs that became complete through histories.", "order <= 20/64 plus 65, 66; clone_from onto every other order; complement and union styles."),
          "DefaultHasher is the hash observer.",
          "DESIGN.md section 4, C20"),
 }
@@ -109,7 +109,7 @@ def main():
                 "engine": "gv",
                 "level_claimed": {"category": "exploration", "text": text, "design_ref": ref},
                 "level_note": note,
-                "technique": tech,
+                "technique": tech + ("; thorough tier adds coverage-guided fuzzing (libFuzzer + ASan)" if i in ("C01","C13") else "") + ("; thorough tier adds a Miri leg (schedule and CPU count owned by the interpreter, data-race detection)" if i in ("C13","C17") else ""),
             })
         else:
             na.append({"property_id": i, "reason": NOT_YET.get(i, "check not built yet (work in progress; DESIGN.md section 4 describes the planned generated-input check)")})
